@@ -932,7 +932,8 @@ func genPats(r *h.Run, pool []string) []Pat {
 
 func main() {
 	r := h.Init("C08")
-	r.Imports = []string{"GU.C08.Regex", "GU.C08.Model"}
+	r.Imports = []string{"GU.C08.Regex", "GU.C08.Model", "GU.C08.Gen"}
+	r.CheckFn = "check_case_gen" // the model instantiated with the facts the translator read from the source
 	r.Rule("trees (depth <= 4, names of 1..3 letters over {a,b,d,x}; every other tree also draws names with leading/trailing/doubled dots, regex metacharacters, and names equal to / containing / contained in the root, destination and archive base names) " +
 		"x 0..3 anchor-free regexes (literals incl. escaped '.', '+' and letters of the other arguments, classes, '.', * + ?, alternation, empty; every fifth tree with NO pattern) " +
 		"x 11 calls (walk, ls, lsrec with/without directories, listtree, subdirs, copy to a fresh / into an existing destination, zip, remove, clean) " +
